@@ -228,12 +228,28 @@ type c10Fault struct {
 // c10Plan: main task (id 0) gets the listed faults at the listed call indices; the bystander (id 1) moves one step
 // right after each fault and finishes last.
 func c10Plan(variant int, wl *c10Workload, by int, faults []c10Fault, seed uint64, worker int) *Plan {
+	return c10PlanWarm(variant, wl, by, 0, faults, seed, worker)
+}
+
+// c10PlanWarm: with warm != 0 a request of another session is served to completion on the same provider first, so that
+// whatever the library remembers from an earlier success is in place when the fault strikes.
+func c10PlanWarm(variant int, wl *c10Workload, by int, warm int, faults []c10Fault, seed uint64, worker int) *Plan {
 	p := &Plan{Format: 1, Property: "C10", Mode: "serial", Family: "enumerate:" + wl.name, Seed: seed, Worker: worker}
 	p.World = c10BaseWorld(variant)
 	p.World.Presessions = append([]Preseed(nil), wl.pre...)
 	m := wl.main(&p.World)
 	if variant == 2 {
 		m.Host = hostMarker(0) + ".idp.example"
+	}
+	first := 0
+	if warm != 0 {
+		wm := &MsgSpec{Kind: "callback", Session: 1, IDMode: "session"}
+		if warm == 2 {
+			wm = &MsgSpec{Kind: "metadata"}
+		}
+		wm.Host = m.Host
+		p.Steps = append(p.Steps, Step{K: "send", Msg: wm}, Step{K: "finish", ByID: true, Pick: 0})
+		first = 1
 	}
 	p.Steps = append(p.Steps, Step{K: "send", Msg: m})
 	if b := c10Bystander(by); b != nil {
@@ -245,17 +261,17 @@ func c10Plan(variant int, wl *c10Workload, by int, faults []c10Fault, seed uint6
 	at := 0
 	for _, f := range faults {
 		for ; at < f.idx; at++ {
-			p.Steps = append(p.Steps, Step{K: "resume", ByID: true, Pick: 0})
+			p.Steps = append(p.Steps, Step{K: "resume", ByID: true, Pick: first})
 		}
-		p.Steps = append(p.Steps, Step{K: "resume", ByID: true, Pick: 0, Fault: f.kind})
+		p.Steps = append(p.Steps, Step{K: "resume", ByID: true, Pick: first, Fault: f.kind})
 		at++
 		if by != 0 {
-			p.Steps = append(p.Steps, Step{K: "resume", ByID: true, Pick: 1})
+			p.Steps = append(p.Steps, Step{K: "resume", ByID: true, Pick: first + 1})
 		}
 	}
-	p.Steps = append(p.Steps, Step{K: "finish", ByID: true, Pick: 0})
+	p.Steps = append(p.Steps, Step{K: "finish", ByID: true, Pick: first})
 	if by != 0 {
-		p.Steps = append(p.Steps, Step{K: "finish", ByID: true, Pick: 1})
+		p.Steps = append(p.Steps, Step{K: "finish", ByID: true, Pick: first + 1})
 	}
 	p.Recovery = true
 	return p
@@ -268,13 +284,22 @@ func enumerateC10(t *testing.T, c *collector, workers int) bool {
 	scen := 0
 	for variant := 0; variant < 4; variant++ {
 		for wi := range wls {
-			for by := 0; by < 3; by++ {
+			for byw := 0; byw < 5; byw++ {
+				// 0..2: bystander settings without warm-up; 3, 4: warm-up by a callback / a metadata request, no bystander
+				by, warm := byw, 0
+				if byw >= 3 {
+					by, warm = 0, byw-2
+				}
 				scen++
 				if workers > 0 && scen%workers != *fWorker%workers {
 					continue
 				}
 				wl := &wls[wi]
-				base := c10Plan(variant, wl, by, nil, *fSeed, *fWorker)
+				mainIdx := 0
+				if warm != 0 {
+					mainIdx = 1
+				}
+				base := c10PlanWarm(variant, wl, by, warm, nil, *fSeed, *fWorker)
 				bres := Run(t, base)
 				if bres.HarnessErr != "" {
 					c.out.HarnessErr = bres.HarnessErr
@@ -293,10 +318,13 @@ func enumerateC10(t *testing.T, c *collector, workers int) bool {
 				if by != 0 && len(bres.Tasks) > 1 {
 					bsig = replySummary(bres.Tasks[1])
 				}
-				trace := bres.Tasks[0].Calls
+				if len(bres.Tasks) <= mainIdx {
+					continue
+				}
+				trace := bres.Tasks[mainIdx].Calls
 				for i := range trace {
 					for _, k := range faultKindsFor(trace[i].Op) {
-						p1 := c10Plan(variant, wl, by, []c10Fault{{i, k}}, *fSeed, *fWorker)
+						p1 := c10PlanWarm(variant, wl, by, warm, []c10Fault{{i, k}}, *fSeed, *fWorker)
 						p1.BystanderSig = bsig
 						r1 := Run(t, p1)
 						if r1.HarnessErr != "" {
@@ -310,13 +338,13 @@ func enumerateC10(t *testing.T, c *collector, workers int) bool {
 							return true
 						}
 						// pairs: second fault anywhere in the trace as it unfolds after the first
-						if len(r1.Tasks) == 0 {
+						if len(r1.Tasks) <= mainIdx {
 							continue
 						}
-						t1 := r1.Tasks[0].Calls
+						t1 := r1.Tasks[mainIdx].Calls
 						for j := i + 1; j < len(t1); j++ {
 							for _, k2 := range faultKindsFor(t1[j].Op) {
-								p2 := c10Plan(variant, wl, by, []c10Fault{{i, k}, {j, k2}}, *fSeed, *fWorker)
+								p2 := c10PlanWarm(variant, wl, by, warm, []c10Fault{{i, k}, {j, k2}}, *fSeed, *fWorker)
 								p2.BystanderSig = bsig
 								r2 := Run(t, p2)
 								if r2.HarnessErr != "" {
